@@ -535,6 +535,7 @@ class Verifier(Interp):
         params = [p.arg for p in a.args]
         saved = (self.st.vars, self.module)
         v = dict(f.closure)
+        v.update(getattr(f, "defaults", {}))
         v.update(zip(params, args))
         self.st.vars = v
         self.module = f.module
@@ -838,6 +839,8 @@ class Verifier(Interp):
         if ty.kind == "setcell":
             return v
         if ty.kind == "list":
+            if isinstance(v, OptV):
+                v = v.val
             if isinstance(v, Ref) and v.ty.kind == "list":
                 c = self.st.heap[v.rid]
                 if isinstance(c, P):
@@ -1074,6 +1077,8 @@ class Verifier(Interp):
                         raise ContinueSig()
                 return self.ev(_g.elt)
             return n, elem
+        if isinstance(c, P) and c.ty.kind == "opq" and c.ty.args[0] in self.reg.iter_models:
+            return self.reg.iter_models[c.ty.args[0]](self, c, s)
         if isinstance(c, Special) and c.tag in self.reg.iter_models:
             return self.reg.iter_models[c.tag](self, c, s)
         raise Unsupported("loop over %r" % (c,))
@@ -1227,7 +1232,9 @@ class Verifier(Interp):
                 self.st.vars[v] = self.havoc_like(self.st.vars[v], v)
         for loc in inv.heap_modifies:
             self.havoc_loc(loc, {})
+        _a = len(self.st.pc)
         self.assume(inv_formula(), "inv")
+        self.inv_pc_range = (_a, len(self.st.pc))
         self.want_truth = True
         try:
             c = self.truth(self.ev(s.test))
@@ -1239,6 +1246,8 @@ class Verifier(Interp):
                 m0 = self.spec_eval(lambda: self.term(self.ev(self.parse(inv.decreases)), INT), {})
             saved_sw, self.stepwise = self.stepwise, (inv.stepwise or None)
             self.stepwise_facts = []
+            self.stepwise_chain = {}
+            self.stepwise_ctx = tuple(inv.stepwise_ctx)
             try:
                 self.exec_block(s.body)
             except ContinueSig:
@@ -1252,7 +1261,7 @@ class Verifier(Interp):
                 # the chain of per-statement equalities is given only to the clauses that talk about the
                 # conserved quantity (clause 0 by convention)
                 for lab, part in zip(f.labels, f.parts):
-                    self.prove(name + ".step." + lab, part, extra_hyps=self.stepwise_facts if lab == "0" else (),
+                    self.prove(name + ".step." + lab, part, extra_hyps=self.stepwise_facts if lab in inv.stepwise_for else (),
                                meta={"kind": "loop-step"})
             else:
                 self.prove(name + ".step", f, meta={"kind": "loop-step"})
